@@ -140,7 +140,7 @@ def check(case, ctx):
     if m["cls"] != "SS" or True:
         r = 3
         try:
-            probes["t_refined"] = ocp.sample(ocp.t, grid="integrator", refine=r)[0]
+            probes["t_refined"], probes["t_refined_val"] = ocp.sample(ocp.t, grid="integrator", refine=r)
         except Exception:
             r = None
     nlp.add_all(probes)
@@ -250,6 +250,8 @@ def check(case, ctx):
         want_tr = np.concatenate([ti[j] + (ti[j + 1] - ti[j]) * np.arange(r) / r for j in range(N * M)] + [[ti[-1]]])
         if not close(tr_, want_tr, 1e-10, 1e-11):
             fails.append(Fail("refined-time", feats, {"sampled": tr_, "reference": want_tr}))
+        elif not close(res["t_refined_val"].reshape(-1), tr_, 1e-12, 1e-12):
+            fails.append(Fail("sampled-t-refined", feats, {"sample(t)": res["t_refined_val"].reshape(-1), "time_vector": tr_}))
     # (3) min / max enforcement (only where the interval lengths are decided by variables)
     has_time_vars = len(tcols) > 0
     # interval lengths are decided by variables only with a free T or a FreeGrid (otherwise they are parametric
